@@ -10,6 +10,7 @@ CONSTANTS
   GenNsChoices = {FALSE}
   Spellings = {"rel"}
   CanonNs = FALSE
+  SupportFromRootParent = FALSE
 INVARIANT Refines
 INVARIANT IndexClosed
 INVARIANT MadeIndexed
